@@ -1,4 +1,39 @@
-(* C13 — property theorems (under construction) *)
-From Coq Require Import List ZArith.
-From AV Require Import Engine.Core Engine.Sem Engine.Eval Engine.Rerun.
+(* C13 — run() is idempotent and monotone re-runs equal a fresh run.
+   Property theorems only; proofs in Engine/Main.v.  Model of the program value between runs: Engine/Rerun.v
+   (rows kept and appended to by the caller; run() rebuilds its indices from the rows — after the fix commit
+   949309d in /repo; before it the model refuted idempotence for aggregating programs, see known_findings.json). *)
+From Coq Require Import List ZArith Bool.
+From AV Require Import Engine.Core Engine.Sem Engine.Eval Engine.Validate Engine.Naive Engine.Interface Engine.Main Engine.Rerun.
 Import ListNotations.
+
+(* a second run() on an unmodified program value changes nothing — not even the order of the rows *)
+Theorem c13_idempotent : forall (I : interp) (swap : list tuple -> list tuple -> bool) arities P pl,
+  arities_functional arities -> no_agg P = true -> validate arities P pl = true ->
+  forall fuel fuel' F0 st1 st2, wf_facts arities F0 = true ->
+  run_plan I swap fuel pl (init_state F0) = Some st1 ->
+  wf_facts arities (rows st1) = true ->
+  run_plan I swap fuel' pl st1 = Some st2 ->
+  rows st2 = rows st1.
+Proof. exact rerun_idempotent. Qed.
+
+(* pushing further facts (into any relation, derived ones included) and running again gives the relations of a
+   fresh run on the union of all inputs *)
+Theorem c13_incremental : forall (I : interp) (swap : list tuple -> list tuple -> bool) arities P pl,
+  arities_functional arities -> no_agg P = true -> validate arities P pl = true ->
+  forall fuel fuel' F0 F1 st1 st2 M, wf_facts arities F0 = true ->
+  run_plan I swap fuel pl (init_state F0) = Some st1 ->
+  wf_facts arities (rows (push_facts F1 st1)) = true ->
+  run_plan I swap fuel' pl (push_facts F1 st1) = Some st2 ->
+  least_model I P (F0 ++ F1) M ->
+  same_set (rows st2) M.
+Proof. exact rerun_incremental. Qed.
+
+(* a run only depends on the rows of the program value: the indices left by earlier runs are irrelevant *)
+Theorem c13_run_depends_on_rows_only : forall I swap fuel pl st, run_plan I swap fuel pl st = run_plan I swap fuel pl (init_state (rows st)).
+Proof. exact run_plan_rows_only. Qed.
+
+(* PARTIAL: idempotence for programs WITH aggregation / negation and for lattice relations is not yet a theorem
+   (it follows the same way from c04_stratified_model; lattices are outside this model); both are exercised by the
+   tie (gen/props/c13.py: run;run on stratified programs). *)
+
+Print Assumptions c13_idempotent. Print Assumptions c13_incremental. Print Assumptions c13_run_depends_on_rows_only.
